@@ -208,6 +208,32 @@ impl serde::Serialize for Unencodable {
     }
 }
 
+/// A borrowed key form whose `Hash` panics: `get_by(&Evil)` unwinds out of the map lookup while the
+/// registry's mutex is held and so poisons it.  `PeerRegistry::lock` documents that it recovers from
+/// poisoning; every later call must behave as if nothing had happened.
+#[repr(transparent)]
+struct Evil(str);
+impl std::borrow::Borrow<Evil> for String {
+    fn borrow(&self) -> &Evil {
+        // SAFETY: `Evil` is a transparent wrapper around `str`
+        unsafe { &*(self.as_str() as *const str as *const Evil) }
+    }
+}
+impl std::hash::Hash for Evil {
+    fn hash<H: std::hash::Hasher>(&self, state: &mut H) {
+        if self.0.starts_with("\u{1}panic") {
+            panic!("Evil::hash");
+        }
+        self.0.hash(state)
+    }
+}
+impl PartialEq for Evil {
+    fn eq(&self, o: &Evil) -> bool {
+        self.0 == o.0
+    }
+}
+impl Eq for Evil {}
+
 /// Fails after the encoder has already emitted the opening of a map and one entry.
 struct PartialThenFail;
 impl serde::Serialize for PartialThenFail {
@@ -367,10 +393,15 @@ impl Real {
 
 impl Drop for Real {
     fn drop(&mut self) {
-        // break Arc cycles of re-entrant sinks
-        for id in &self.inserted {
-            self.reg.remove(PeerId(*id));
-        }
+        // break Arc cycles of re-entrant sinks (guarded: a registry that panics on every call must not
+        // take the harness down with it)
+        let reg = self.reg.clone();
+        let ids = self.inserted.clone();
+        let _ = catch(move || {
+            for id in ids {
+                reg.remove(PeerId(id));
+            }
+        });
     }
 }
 
@@ -509,6 +540,8 @@ enum EOp {
     Get(u64),
     KeyFor(u64),
     Peers,
+    IsEmpty,
+    DbgReg,
 }
 
 fn eop_of_code(c: u8) -> Option<EOp> {
@@ -533,6 +566,10 @@ fn eop_of_code(c: u8) -> Option<EOp> {
         EOp::KeyFor(c - 26)
     } else if c == 29 {
         EOp::Peers
+    } else if c == 30 {
+        EOp::IsEmpty
+    } else if c == 31 {
+        EOp::DbgReg
     } else {
         return None;
     })
@@ -542,8 +579,8 @@ fn eops_of_str(s: &str) -> Option<Vec<EOp>> {
     if s == "-" {
         return Some(vec![]);
     }
-    // a..z = codes 0..25, A..D = codes 26..29 (key_for 0..2, peers)
-    s.bytes().map(|b| if (97..123).contains(&b) { eop_of_code(b - 97) } else if (65..69).contains(&b) { eop_of_code(b - 65 + 26) } else { None }).collect()
+    // a..z = codes 0..25, A..F = codes 26..31 (key_for 0..2, peers, is_empty, Debug of the registry)
+    s.bytes().map(|b| if (97..123).contains(&b) { eop_of_code(b - 97) } else if (65..71).contains(&b) { eop_of_code(b - 65 + 26) } else { None }).collect()
 }
 
 fn code_char(c: u8) -> char {
@@ -564,6 +601,8 @@ fn explicit(op: EOp, idx: usize, tag: u64) -> String {
         EOp::Get(p) => format!("get {} {}", idx, p),
         EOp::KeyFor(p) => format!("keyfor {} {}", idx, p),
         EOp::Peers => format!("peers {}", idx),
+        EOp::IsEmpty => format!("isempty {}", idx),
+        EOp::DbgReg => format!("dbgreg {}", idx),
     }
 }
 
@@ -595,6 +634,8 @@ fn spec_apply(s: &mut Spec, tag: u64, op: EOp) -> Option<String> {
         EOp::Bcast => format!("{{{}}}", s.sorted_ids().iter().map(|x| x.to_string()).collect::<Vec<_>>().join(",")),
         EOp::Get(p) => s.get(p),
         EOp::KeyFor(p) => s.keyfor(p),
+        EOp::IsEmpty => if s.peers.is_empty() { "T".into() } else { "F".into() },
+        EOp::DbgReg => format!("PeerRegistry{{len:{}}}", s.peers.len()),
         EOp::Peers => {
             let mut v: Vec<(u64, u64)> = s.peers.iter().map(|p| (p.id, p.tag)).collect();
             v.sort();
@@ -630,6 +671,8 @@ fn real_apply(reg: &PeerRegistry, log: &Log, tag: u64, op: EOp, keys: &[String],
         }
         EOp::Get(p) => show_handle(reg.get(PeerId(p))),
         EOp::KeyFor(p) => reg.key_for(PeerId(p)).map(|k| hex(k.as_bytes())).unwrap_or_else(|| "-".into()),
+        EOp::IsEmpty => if reg.is_empty() { "T".into() } else { "F".into() },
+        EOp::DbgReg => format!("{:?}", reg).replace(' ', ""),
         EOp::Peers => {
             let mut v: Vec<(u64, u64)> = reg.peers().iter().map(|h| (h.peer_id().0, tag_of(h))).collect();
             v.sort();
@@ -1018,10 +1061,13 @@ fn loop_states(setup: &[EOp], cycle: &[EOp]) -> Option<Vec<Spec>> {
 }
 
 fn is_query(op: EOp) -> bool {
-    matches!(op, EOp::GetBy(_) | EOp::Aliases(_) | EOp::Len | EOp::Bcast | EOp::Get(_) | EOp::KeyFor(_) | EOp::Peers)
+    matches!(op, EOp::GetBy(_) | EOp::Aliases(_) | EOp::Len | EOp::Bcast | EOp::Get(_) | EOp::KeyFor(_) | EOp::Peers | EOp::IsEmpty | EOp::DbgReg)
 }
 
 struct LoopResult {
+    /// a return value of the cycling thread that differs from the specification's (step index, got)
+    mutator_bad: Option<(usize, String)>,
+    final_digest: String,
     /// per reader, per query position: the distinct answers observed
     answers: Vec<Vec<BTreeSet<String>>>,
     cycles: u64,
@@ -1029,7 +1075,7 @@ struct LoopResult {
     stuck: bool,
 }
 
-fn run_loop(setup: &[EOp], cycle: &[EOp], readers: &[Vec<EOp>], budget: Duration) -> LoopResult {
+fn run_loop(setup: &[EOp], cycle: &[EOp], readers: &[Vec<EOp>], expect: &[String], budget: Duration) -> LoopResult {
     let keys = enum_keys();
     let mut real = Real::new();
     for op in setup {
@@ -1049,22 +1095,28 @@ fn run_loop(setup: &[EOp], cycle: &[EOp], readers: &[Vec<EOp>], budget: Duration
     let reads = Arc::new(AtomicUsize::new(0));
     let mut joins = Vec::new();
     {
-        let (reg, log, stop, go, cycles, keys, cycle) = (real.reg.clone(), real.log.clone(), stop.clone(), go.clone(), cycles.clone(), keys.clone(), cycle.to_vec());
+        let (reg, log, stop, go, cycles, keys, cycle, expect) = (real.reg.clone(), real.log.clone(), stop.clone(), go.clone(), cycles.clone(), keys.clone(), cycle.to_vec(), expect.to_vec());
         joins.push(std::thread::spawn(move || {
             while !go.load(Ordering::Acquire) {
                 std::hint::spin_loop();
             }
+            let mut bad: Vec<BTreeSet<String>> = Vec::new();
             // always finish the cycle that was started: the registry ends in the start state
             while !stop.load(Ordering::Acquire) {
-                for op in &cycle {
-                    real_apply(&reg, &log, loop_tag(*op), *op, &keys, &[0]);
+                for (i, op) in cycle.iter().enumerate() {
+                    // the readers do not change the registry: the cycling thread's own calls must return
+                    // exactly what they return without observers
+                    let r = real_apply(&reg, &log, loop_tag(*op), *op, &keys, &[0]);
+                    if r != expect[i] && bad.is_empty() {
+                        bad.push(BTreeSet::from([format!("{}:{}", i, r)]));
+                    }
                 }
                 cycles.fetch_add(1, Ordering::Relaxed);
                 if cycles.load(Ordering::Relaxed) % 64 == 0 {
                     log.lock().unwrap().clear();
                 }
             }
-            Vec::new()
+            bad
         }));
     }
     for prog in readers {
@@ -1095,7 +1147,7 @@ fn run_loop(setup: &[EOp], cycle: &[EOp], readers: &[Vec<EOp>], budget: Duration
     std::thread::sleep(budget);
     stop.store(true, Ordering::Release);
     let t0 = Instant::now();
-    let mut res = LoopResult { answers: Vec::new(), cycles: 0, reads: 0, stuck: false };
+    let mut res = LoopResult { mutator_bad: None, final_digest: String::new(), answers: Vec::new(), cycles: 0, reads: 0, stuck: false };
     for (i, j) in joins.into_iter().enumerate() {
         while !j.is_finished() {
             if t0.elapsed() > Duration::from_secs(60) {
@@ -1108,8 +1160,12 @@ fn run_loop(setup: &[EOp], cycle: &[EOp], readers: &[Vec<EOp>], budget: Duration
         let seen = j.join().unwrap_or_default();
         if i > 0 {
             res.answers.push(seen);
+        } else if let Some(b) = seen.first().and_then(|x| x.iter().next()) {
+            let (i, r) = b.split_once(':').unwrap_or(("0", ""));
+            res.mutator_bad = Some((i.parse().unwrap_or(0), r.to_string()));
         }
     }
+    res.final_digest = real.digest(&ENUM_IDS, &keys);
     res.cycles = cycles.load(Ordering::Relaxed) as u64;
     res.reads = reads.load(Ordering::Relaxed) as u64;
     res
@@ -1128,11 +1184,13 @@ struct Sess {
     minted: u64,
     fired: BTreeSet<u64>,
     worker: Worker,
+    /// the registry stopped working (a poisoned mutex that is not recovered from): the rest of the history is skipped
+    dead: bool,
 }
 
 impl Sess {
     fn new() -> Sess {
-        Sess { real: Real::new(), spec: Spec::default(), ids: BTreeSet::new(), keys: BTreeSet::new(), behs: BTreeMap::new(), history: vec![], minted: 0, fired: BTreeSet::new(), worker: Worker::new() }
+        Sess { real: Real::new(), spec: Spec::default(), ids: BTreeSet::new(), keys: BTreeSet::new(), behs: BTreeMap::new(), history: vec![], minted: 0, fired: BTreeSet::new(), worker: Worker::new(), dead: false }
     }
     fn universe(&self) -> (Vec<u64>, Vec<String>) {
         (self.ids.iter().cloned().collect(), self.keys.iter().cloned().collect())
@@ -1204,7 +1262,33 @@ fn exec(out: &mut Out, se: &mut Sess, cfg: &Cfg, line: &str) -> (String, String,
             out.oracle_fail(&format!("peers.ret.{}", name), &format!("`{}` returned {} but the specification says {}", line, imp, want), &se.history);
         }
     };
+    if se.dead && w[0] != "reset" {
+        return (line.to_string(), format!("{} dead", idx), false);
+    }
     match w[0] {
+        "poison" if w.len() == 2 => {
+            // a lookup whose key's `Hash` panics while the registry lock is held
+            let reg = se.real.reg.clone();
+            let r = catch(move || {
+                let k = String::from("\u{1}panic");
+                let e: &Evil = std::borrow::Borrow::borrow(&k);
+                reg.get_by(e).is_some()
+            });
+            out.count("poison");
+            // the registry must keep working: one probe call, guarded so that a registry that now panics on
+            // every call is a report and not a crash of the harness
+            let reg = se.real.reg.clone();
+            match catch(move || reg.len()) {
+                Ok(_) => {}
+                Err(_) => {
+                    out.oracle_fail("peers.poison.not_recovered", "after a caller panicked inside a lookup the registry panics on every call", &se.history);
+                    se.dead = true;
+                }
+            }
+            // (whether the lookup gets as far as hashing the key depends on the map being non-empty: not observed)
+            out.count(if r.is_err() { "poison.panicked_under_lock" } else { "poison.lookup_returned" });
+            (line.to_string(), format!("{} done", idx), true)
+        }
         "reset" => {
             *se = Sess::new();
             if via == 1 {
@@ -1657,12 +1741,20 @@ fn exec(out: &mut Out, se: &mut Sess, cfg: &Cfg, line: &str) -> (String, String,
             if readers.is_empty() || cycle.is_empty() {
                 return bad(line);
             }
-            let res = run_loop(&setup, &cycle, &readers, cfg.loop_budget);
+            let expect: Vec<String> = cycle.iter().enumerate().map(|(i, op)| spec_apply(&mut states[i].clone(), loop_tag(*op), *op).unwrap_or_default()).collect();
+            let res = run_loop(&setup, &cycle, &readers, &expect, cfg.loop_budget);
             let head: Vec<&str> = w.iter().take_while(|x| **x != "::").cloned().collect();
             let head = head.join(" ");
             if res.stuck {
                 out.oracle_fail("peers.loop.stuck", "looping callers did not stop within 60 s", &[head.clone()]);
                 return (head, format!("{} STUCK", idx), false);
+            }
+            if let Some((i, r)) = &res.mutator_bad {
+                out.oracle_fail("peers.loop.mutator", &format!("while observers run, step {} of the cycle `{}` returned {} but the specification says {}", i, w[3], r, expect[*i]), &[head.clone()]);
+            }
+            let want_final = states[0].digest(&ENUM_IDS, &enum_keys());
+            if res.mutator_bad.is_none() && res.final_digest != want_final {
+                out.oracle_fail("peers.loop.final_state", &format!("after the cycles the registry answers {} but the specification says {}", res.final_digest, want_final), &[head.clone()]);
             }
             out.add("loop.cycles", res.cycles);
             out.add("loop.reads", res.reads);
@@ -1844,7 +1936,7 @@ fn gen_json(rng: &mut Rng, depth: u32) -> serde_json::Value {
 fn gen_len(rng: &mut Rng, thorough: bool) -> usize {
     match rng.below(40) {
         0..=15 => rng.below(5) as usize,
-        16 => 0,
+        16 => *rng.pick(&[0usize, 47, 48, 49]),
         17 => 1,
         18 => 255,
         19 => 256,
@@ -2089,6 +2181,137 @@ fn gen_history(rng: &mut Rng, n: &mut usize, len: usize, thorough: bool, ops: &m
     ops.push(format!("dump {}", next(n)));
 }
 
+/// Class (g): the same event N times in a row, N around the usual thresholds and around the capacity
+/// steps of the hash maps (3, 7, 14, 28, 56, 112, 224, 448, 896).  The N-th must be treated like the first.
+fn gen_runs(rng: &mut Rng, n: &mut usize, thorough: bool, force: Option<usize>, ops: &mut Vec<String>) {
+    let small: [usize; 17] = [1, 2, 7, 8, 9, 16, 17, 28, 29, 56, 57, 64, 65, 112, 113, 256, 257];
+    let pick = |rng: &mut Rng| if thorough && rng.chance(1, 3) { *rng.pick(&[448usize, 449, 896, 897, 1000]) } else { *rng.pick(&small) };
+    let next = |n: &mut usize| {
+        *n += 1;
+        *n
+    };
+    let khex = |i: usize| hex(format!("g{}", i).as_bytes());
+    // (1) N refused aliases, then the peer appears and the same key is accepted
+    let k = pick(rng);
+    ops.push(format!("reset {} via=0", next(n)));
+    for _ in 0..k {
+        ops.push(format!("alias {} 5 61 via=1", next(n)));
+    }
+    ops.push(format!("ins {} 5 1 ok", next(n)));
+    ops.push(format!("alias {} 5 61 via=0", next(n)));
+    // (2) N re-attachments of the key its peer already has, then N re-points back and forth
+    for _ in 0..pick(rng) {
+        ops.push(format!("alias {} 5 61 via=1", next(n)));
+    }
+    ops.push(format!("ins {} 6 2 ok", next(n)));
+    for i in 0..pick(rng) {
+        ops.push(format!("alias {} {} 61 via=1", next(n), if i % 2 == 0 { 6 } else { 5 }));
+    }
+    ops.push(format!("dump {}", next(n)));
+    // (3) N removals of an absent peer, N insert/alias/remove rounds of one id
+    for _ in 0..pick(rng) {
+        ops.push(format!("rem {} 9", next(n)));
+    }
+    let k = pick(rng).min(300);
+    for i in 0..k {
+        ops.push(format!("ins {} 9 {} ok", next(n), 100 + i));
+        ops.push(format!("alias {} 9 62 via=1", next(n)));
+        ops.push(format!("rem {} 9", next(n)));
+    }
+    ops.push(format!("dump {}", next(n)));
+    // (4) N distinct keys on one peer, one from the middle re-pointed, then the peer removed
+    let k = force.unwrap_or_else(|| pick(rng));
+    ops.push(format!("reset {} via=1", next(n)));
+    ops.push(format!("ins {} 5 1 ok", next(n)));
+    ops.push(format!("ins {} 6 2 ok", next(n)));
+    for i in 0..k {
+        ops.push(format!("alias {} 5 {} via={}", next(n), khex(i), i % 4));
+    }
+    ops.push(format!("aliases {} 5", next(n)));
+    ops.push(format!("alias {} 6 {} via=0", next(n), khex(k / 2)));
+    ops.push(format!("alias {} 6 {} via=0", next(n), khex(k - 1)));
+    ops.push(format!("dump {}", next(n)));
+    ops.push(format!("rem {} 5", next(n)));
+    ops.push(format!("dump {}", next(n)));
+    // (5) N peers, every answer kind, N broadcasts in a row (also N failing sends in a row to the same peers)
+    let k = force.unwrap_or_else(|| pick(rng));
+    ops.push(format!("reset {} via=0", next(n)));
+    let behs = ["ok", "disc", "full", "other", "okdown", "plain"];
+    for i in 0..k {
+        ops.push(format!("ins {} {} {} {}", next(n), 2000 + i, i + 1, behs[i % behs.len()]));
+        if i % 3 == 0 {
+            ops.push(format!("alias {} {} {} via=1", next(n), 2000 + i, khex(i)));
+        }
+    }
+    // (the per-broadcast bookkeeping is quadratic in the number of peers on both sides: fewer rounds for big sets)
+    let b = pick(rng).min(if k > 300 { 40 } else if thorough { 300 } else { 70 });
+    for i in 0..b {
+        match i % 4 {
+            0 => ops.push(format!("bcast {} raw 2f67 0 0102 via=0", next(n))),
+            1 => ops.push(format!("bcast {} utf8 2f67 3 6869 via=1", next(n))),
+            2 => ops.push(format!("bcast {} json 2f67 2 7b226e223a317d via=0", next(n))),
+            _ => ops.push(format!("bcastfail {} json 2f67 partial", next(n))),
+        }
+    }
+    ops.push(format!("peers {}", next(n)));
+    ops.push(format!("dump {}", next(n)));
+    // the peer that failed every one of those sends is still there and still aliasable
+    if k > 1 {
+        ops.push(format!("alias {} 2001 {} via=0", next(n), khex(1)));
+        ops.push(format!("get {} 2001", next(n)));
+    }
+    for i in 0..k.min(40) {
+        ops.push(format!("rem {} {}", next(n), 2000 + i));
+    }
+    ops.push(format!("dump {}", next(n)));
+    // (6) N ids minted in a row, N encoder failures in a row then one good broadcast, N poisonings
+    ops.push(format!("reset {} via=1", next(n)));
+    ops.push(format!("ins {} 0 1 ok", next(n)));
+    for _ in 0..pick(rng) {
+        ops.push(format!("mint {}", next(n)));
+    }
+    for i in 0..pick(rng).min(120) {
+        ops.push(format!("bcastfail {} {} 2f67 {}", next(n), if i % 2 == 0 { "json" } else { "beve" }, ["none", "partial"][i % 2]));
+    }
+    ops.push(format!("bcast {} json 2f67 2 7b226e223a317d via=0", next(n)));
+    ops.push(format!("alias {} 0 62 via=0", next(n)));
+    for _ in 0..*rng.pick(&[1usize, 2, 9]) {
+        ops.push(format!("poison {}", next(n)));
+        ops.push(format!("alias {} 0 61 via=1", next(n)));
+        ops.push(format!("getby {} 61 via=0", next(n)));
+    }
+    ops.push(format!("dump {}", next(n)));
+}
+
+/// Class (k): the extreme values of the broadcast parameters crossed with each other (path length x body
+/// length x helper x number of peers x sink answers), one broadcast per combination.
+fn gen_pairs(rng: &mut Rng, n: &mut usize, ops: &mut Vec<String>) {
+    let next = |n: &mut usize| {
+        *n += 1;
+        *n
+    };
+    let paths = [String::new(), "/x".repeat(35000)];
+    let sizes = [0usize, 65537];
+    for peers in [0usize, 1, 9] {
+        ops.push(format!("reset {} via={}", next(n), peers % 2));
+        for i in 0..peers {
+            ops.push(format!("ins {} {} {} {}", next(n), i, i + 1, ["other", "ok", "disc", "full", "okdown", "plain", "read", "alias", "ok"][i % 9]));
+        }
+        for path in &paths {
+            for sz in sizes {
+                let ph = hex(path.as_bytes());
+                let via = rng.below(4);
+                ops.push(format!("bcast {} raw {} {} {} via={} on=clone", next(n), ph, rng.below(4), hex(&rng.bytes(sz)), via));
+                ops.push(format!("bcast {} utf8 {} 3 {} via={}", next(n), ph, hex("é".repeat(sz / 2).as_bytes()), via));
+                ops.push(format!("bcast {} json {} 2 {} via={}", next(n), ph, hex(&serde_json::to_vec(&serde_json::Value::String("s".repeat(sz))).unwrap()), via % 2));
+                let v = serde_json::Value::String("b".repeat(sz));
+                ops.push(format!("bcast {} beve {} 1 {} {}", next(n), ph, hex(&beve::to_vec(&v).unwrap()), hex(&serde_json::to_vec(&v).unwrap())));
+            }
+        }
+        ops.push(format!("dump {}", next(n)));
+    }
+}
+
 fn codes_to_string(cs: &[u8]) -> String {
     if cs.is_empty() { "-".into() } else { cs.iter().map(|c| code_char(*c)).collect() }
 }
@@ -2126,7 +2349,7 @@ fn gen_conc(rng: &mut Rng, idx: usize) -> String {
                 let c = match rng.below(10) {
                     0..=5 => rng.range(3, 14) as u8, // rem / alias
                     6 => rng.below(3) as u8,         // ins
-                    _ => rng.range(15, 29) as u8,    // queries / broadcast
+                    _ => rng.range(15, 31) as u8,    // queries / broadcast
                 };
                 if let Some(EOp::Ins(pid)) = eop_of_code(c) {
                     if spec.present(pid) || inserted.contains(&pid) {
@@ -2234,7 +2457,7 @@ fn gen_loop(rng: &mut Rng, idx: usize) -> String {
         if !closed {
             continue;
         }
-        let readers: Vec<String> = (0..3).map(|_| (0..rng.range(1, 2)).map(|_| code_char(rng.range(15, 29) as u8)).collect()).collect();
+        let readers: Vec<String> = (0..3).map(|_| (0..rng.range(1, 2)).map(|_| code_char(rng.range(15, 31) as u8)).collect()).collect();
         return format!("loop {} {} {} {}", idx, codes_to_string(&setup), codes_to_string(&cycle), readers.join(" "));
     }
 }
@@ -2316,6 +2539,14 @@ fn main() {
             let l = if l == "BEVE" { format!("bcast {{}} beve 2f70 1 {} 7b226e223a327d", hex(&beve::to_vec(&serde_json::json!({"n": 2})).unwrap())) } else { l.to_string() };
             ops.push(l.replace("{}", &n.to_string()));
         }
+        // (3a) runs of identical events (class g), extreme parameter pairs (class k)
+        // every run has one history with 257 (thorough: also 65 and 1000) keys on one peer / peers in one
+        // broadcast; the other run lengths are drawn from the threshold list
+        let forced: Vec<Option<usize>> = if thorough { vec![Some(257), Some(65), Some(1000), None, None, None] } else if search { vec![Some(257), Some(65), None] } else { vec![Some(257), None] };
+        for f in forced {
+            gen_runs(&mut rng, &mut n, thorough, f, &mut ops);
+        }
+        gen_pairs(&mut rng, &mut n, &mut ops);
         for _ in 0..hist {
             let len = rng.range(10, maxlen) as usize;
             gen_history(&mut rng, &mut n, len, thorough, &mut ops);
